@@ -507,6 +507,32 @@ class AcquireOboUnit(BorrowerUnit):
     )
 
 
+class AcquireUnit(LimUnit):
+    """acquire() == acquire_on_behalf_of(current task); the callee's real body is inlined (no contract for it is
+    registered here), so every segment of it is verified again with borrower = the running task"""
+
+    method = "acquire"
+    contracts = {
+        "CapacityLimiter._notify_next_waiter": NOTIFY,
+        "CapacityLimiter.acquire_on_behalf_of_nowait": ACQ_NOWAIT_OBO,
+        "CapacityLimiter.release_on_behalf_of": RELEASE_OBO,
+    }
+    contract = Contract(
+        "CapacityLimiter.acquire",
+        requires=lambda h, a: [("A_borrower_no_inflight_grant", no_inflight_grant_for(h, a.self, a.cur)), ("A_borrower_not_already_waiting", not_already_waiting(h, a.self, a.cur))],
+        cases=[
+            Case("acquired", when=lambda pre, a: True, ensures=lambda pre, post, a, ret: [("current_task_holds_a_token", bset(post, a.self).has(a.cur))]),
+            Case("double_borrow", when=lambda pre, a: bset(pre, a.self).has(a.cur), raises="RuntimeError", ensures=lambda pre, post, a, ret: [("unchanged", unchanged(pre, post, a.self))]),
+            Case("cancelled", when=lambda pre, a: True, raises="CancelledError", ensures=lambda pre, post, a, ret: [("no_token_leaked_to_the_caller", z3.Implies(z3.Not(bset(pre, a.self).has(a.cur)), z3.Not(bset(post, a.self).has(a.cur))))]),
+        ],
+        bind=bind_self,
+    )
+
+    def make_args(self, ip):
+        self.borrower_term = ip.ctx.cur.t
+        return [], types.SimpleNamespace()
+
+
 class ReleaseUnit(LimUnit):
     """release() == release_on_behalf_of(current task)"""
 
@@ -593,4 +619,4 @@ class IntegralLemma(LemmaUnit):
         ip.ctx.oblige(f"{self.name}/lemma:strict_form_equals_leq", (z3.ToReal(c) - 1 < z3.ToReal(n)) == (c <= n), "lemma")
 
 
-UNITS = [IntegralLemma, InitUnit, SetterUnit, NotifyUnit, AcqNowaitOboUnit, ReleaseOboUnit, AcquireOboUnit, ReleaseUnit, AcqNowaitUnit, BorrowedUnit, AvailableUnit, TotalGetterUnit]
+UNITS = [IntegralLemma, InitUnit, SetterUnit, NotifyUnit, AcqNowaitOboUnit, ReleaseOboUnit, AcquireOboUnit, AcquireUnit, ReleaseUnit, AcqNowaitUnit, BorrowedUnit, AvailableUnit, TotalGetterUnit]
